@@ -126,4 +126,202 @@ theorem matchSignatures_true (mode : Nat) (ops : List (Nat × Nat)) :
           obtain ⟨r, hr, hh⟩ := ih _ _ h
           exact ⟨r, List.mem_cons_of_mem _ hr, hh⟩
 
+/-! ### position bookkeeping: a clean operand loop embeds the operands in every form covering the row -/
+
+theorem and_pow_testBit {o i : Nat} (h : o &&& 2 ^ i ≠ 0) : o.testBit i = true := by
+  apply Classical.byContradiction
+  intro hf
+  apply h
+  apply Nat.eq_of_testBit_eq
+  intro j
+  rw [Nat.testBit_and, Nat.testBit_two_pow]
+  have hf' : o.testBit i = false := by simpa using hf
+  by_cases e : i = j
+  · subst e; simp [hf']
+  · simp [e]
+
+/-- two flag words that both contain the single kind bit `b` share a kind -/
+theorem share_bit {x o k b : Nat} (hb : b ∈ bitsOf x) (ho : o &&& b ≠ 0) (hk : k &&& b ≠ 0) : o &&& k ≠ 0 := by
+  unfold bitsOf at hb
+  obtain ⟨i, _, e⟩ := List.mem_map.mp hb
+  subst e
+  rw [Nat.one_shiftLeft] at ho hk
+  have h1 := and_pow_testBit ho
+  have h2 := and_pow_testBit hk
+  intro e0
+  have : (o &&& k).testBit i = true := by rw [Nat.testBit_and, h1, h2]; rfl
+  rw [e0] at this
+  simp at this
+
+theorem checkOpSig_oor (o r : Nat × Nat) : (checkOpSig o r true).2 = true := by
+  unfold checkOpSig
+  simp only
+  repeat' split
+  all_goals rfl
+
+theorem msi_oor (a b : List (Nat × Nat)) (oor : Bool) (h : oor = true) : (matchSkippingImplicit a b oor).2 = true := by
+  induction a, b, oor using matchSkippingImplicit.induct with
+  | case1 x oor => unfold matchSkippingImplicit; simpa using h
+  | case2 hd tl oor => unfold matchSkippingImplicit; simpa using h
+  | case3 o os r rs oor himp ih => unfold matchSkippingImplicit; simp only [himp, if_true]; exact ih h
+  | case4 o os r rs oor himp oor' hck ih =>
+    unfold matchSkippingImplicit
+    simp only [himp, if_false, hck, if_true]
+    apply ih
+    subst h
+    have := checkOpSig_oor o r
+    rw [hck] at this
+    exact this
+  | case5 o os r rs oor himp a oor' hck ha =>
+    unfold matchSkippingImplicit
+    simp only [himp, if_false, hck]
+    cases a with
+    | true => exact absurd rfl ha
+    | false =>
+      simp only [Bool.false_eq_true, if_false]
+      subst h
+      have := checkOpSig_oor o r
+      rw [hck] at this
+      exact this
+
+theorem me_oor : ∀ (a b : List (Nat × Nat)), (matchExplicit a b true).2 = true := by
+  intro a
+  induction a with
+  | nil => intro b; simp [matchExplicit]
+  | cons o os ih =>
+    intro b
+    cases b with
+    | nil => simp [matchExplicit]
+    | cons r rs =>
+      unfold matchExplicit
+      cases hck : checkOpSig o r true with
+      | mk a oor' =>
+        have h2 := checkOpSig_oor o r
+        rw [hck] at h2
+        simp only at h2
+        subst h2
+        cases a <;> simp [ih]
+
+/-- the step shared by both loops: a spelled operand accepted at a reference position -/
+theorem embeds_step (o r : Nat × Nat) (os rs : List (Nat × Nat)) (hcom : o.1 &&& (r.1 &&& fOpMask) ≠ 0)
+    (htl : ∃ choice, All2 (fun b r => b ∈ bitsOf r) choice (rs.map fun r => r.1 &&& fOpMask) ∧
+      ∀ f : List Nat, All2 (fun k b => k &&& b ≠ 0) f choice → Embeds os rs f) :
+    ∃ choice, All2 (fun b r => b ∈ bitsOf r) choice ((r :: rs).map fun r => r.1 &&& fOpMask) ∧
+      ∀ f : List Nat, All2 (fun k b => k &&& b ≠ 0) f choice → Embeds (o :: os) (r :: rs) f := by
+  obtain ⟨b, hb, hob⟩ := common_bit o.1 r.1 hcom
+  obtain ⟨choice, hc1, hc2⟩ := htl
+  refine ⟨b :: choice, by simp only [List.map_cons, All2]; exact ⟨hb, hc1⟩, ?_⟩
+  intro f hf
+  cases f with
+  | nil => simp [All2] at hf
+  | cons k ks =>
+    simp only [All2] at hf
+    simp only [Embeds]
+    exact Or.inr ⟨share_bit hb hob hf.1, hc2 ks hf.2⟩
+
+/-- a reference position that is skipped or left over: any kind of the reference will do -/
+theorem embeds_skip (ops : List (Nat × Nat)) (r : Nat × Nat) (rs : List (Nat × Nat)) (hr : r.1 &&& fOpMask ≠ 0)
+    (hok : test r.1 fFlagImplicit = true ∨ ops = [])
+    (htl : ∃ choice, All2 (fun b r => b ∈ bitsOf r) choice (rs.map fun r => r.1 &&& fOpMask) ∧
+      ∀ f : List Nat, All2 (fun k b => k &&& b ≠ 0) f choice → Embeds ops rs f) :
+    ∃ choice, All2 (fun b r => b ∈ bitsOf r) choice ((r :: rs).map fun r => r.1 &&& fOpMask) ∧
+      ∀ f : List Nat, All2 (fun k b => k &&& b ≠ 0) f choice → Embeds ops (r :: rs) f := by
+  obtain ⟨b, hb⟩ := any_bit r.1 hr
+  obtain ⟨choice, hc1, hc2⟩ := htl
+  refine ⟨b :: choice, by simp only [List.map_cons, All2]; exact ⟨hb, hc1⟩, ?_⟩
+  intro f hf
+  cases f with
+  | nil => simp [All2] at hf
+  | cons k ks =>
+    simp only [All2] at hf
+    cases ops with
+    | nil => simp only [Embeds]; exact Or.inr (hc2 ks hf.2)
+    | cons o os =>
+      simp only [Embeds]
+      rcases hok with himp | he
+      · exact Or.inl ⟨himp, hc2 ks hf.2⟩
+      · cases he
+
+theorem embeds_nil : ∀ (rs : List (Nat × Nat)), rs.all (fun r => r.1 &&& fOpMask != 0) = true →
+    ∃ choice, All2 (fun b r => b ∈ bitsOf r) choice (rs.map fun r => r.1 &&& fOpMask) ∧
+      ∀ f : List Nat, All2 (fun k b => k &&& b ≠ 0) f choice → Embeds [] rs f := by
+  intro rs
+  induction rs with
+  | nil =>
+    intro _
+    refine ⟨[], by simp [All2], fun f hf => ?_⟩
+    cases f with
+    | nil => simp [Embeds]
+    | cons _ _ => simp [All2] at hf
+  | cons r rs ih =>
+    intro h
+    simp only [List.all_cons, Bool.and_eq_true, bne_iff_ne, ne_eq] at h
+    exact embeds_skip [] r rs h.1 (Or.inr rfl) (ih h.2)
+
+/-- the implicit-operand-skipping loop of `validate` -/
+theorem embeds_of_skipping (ops refs : List (Nat × Nat)) (oor : Bool)
+    (hne : refs.all (fun r => r.1 &&& fOpMask != 0) = true)
+    (h : matchSkippingImplicit ops refs oor = (true, false)) :
+    ∃ choice, All2 (fun b r => b ∈ bitsOf r) choice (refs.map fun r => r.1 &&& fOpMask) ∧
+      ∀ f : List Nat, All2 (fun k b => k &&& b ≠ 0) f choice → Embeds ops refs f := by
+  induction ops, refs, oor using matchSkippingImplicit.induct with
+  | case1 x oor => exact embeds_nil x hne
+  | case2 hd tl oor => unfold matchSkippingImplicit at h; simp at h
+  | case3 o os r rs oor himp ih =>
+    simp only [List.all_cons, Bool.and_eq_true, bne_iff_ne, ne_eq] at hne
+    unfold matchSkippingImplicit at h
+    simp only [himp, if_true] at h
+    exact embeds_skip (o :: os) r rs hne.1 (Or.inl himp) (ih hne.2 h)
+  | case4 o os r rs oor himp oor' hck ih =>
+    simp only [List.all_cons, Bool.and_eq_true, bne_iff_ne, ne_eq] at hne
+    unfold matchSkippingImplicit at h
+    simp only [himp, Bool.false_eq_true, if_false, hck, if_true] at h
+    have hoor' : oor' = false := by
+      cases oor' with
+      | false => rfl
+      | true => have := msi_oor os rs true rfl; rw [h] at this; simp at this
+    subst hoor'
+    exact embeds_step o r os rs (checkOpSig_common o r oor hck).1 (ih hne.2 h)
+  | case5 o os r rs oor himp a oor' hck ha =>
+    unfold matchSkippingImplicit at h
+    simp only [himp, Bool.false_eq_true, if_false, hck] at h
+    cases a with
+    | true => exact absurd rfl ha
+    | false => simp at h
+
+/-- the position-by-position loop of `validate` (operand count = reference count) -/
+theorem embeds_of_explicit : ∀ (ops refs : List (Nat × Nat)) (oor : Bool),
+    refs.all (fun r => r.1 &&& fOpMask != 0) = true → ops.length = refs.length →
+    matchExplicit ops refs oor = (true, false) →
+    ∃ choice, All2 (fun b r => b ∈ bitsOf r) choice (refs.map fun r => r.1 &&& fOpMask) ∧
+      ∀ f : List Nat, All2 (fun k b => k &&& b ≠ 0) f choice → Embeds ops refs f := by
+  intro ops
+  induction ops with
+  | nil =>
+    intro refs oor hne hl _
+    cases refs with
+    | nil => exact embeds_nil [] hne
+    | cons _ _ => simp at hl
+  | cons o os ih =>
+    intro refs oor hne hl h
+    cases refs with
+    | nil => simp at hl
+    | cons r rs =>
+      simp only [List.all_cons, Bool.and_eq_true, bne_iff_ne, ne_eq] at hne
+      unfold matchExplicit at h
+      cases hck : checkOpSig o r oor with
+      | mk a oor' =>
+        rw [hck] at h
+        simp only at h
+        cases a with
+        | false => simp at h
+        | true =>
+          simp only [if_true] at h
+          have hoor' : oor' = false := by
+            cases oor' with
+            | false => rfl
+            | true => have := me_oor os rs; rw [h] at this; simp at this
+          subst hoor'
+          exact embeds_step o r os rs (checkOpSig_common o r oor hck).1 (ih rs false hne.2 (by simpa using hl) h)
+
 end AsmjitVerif.X86Sound
